@@ -150,7 +150,9 @@ def c12_items(tier: str, seed: int):
         ("u64", "A = 1, B = 9223372036854775808, C = 2"),
     ]
     for r, body in big:
-        add("beyond_i64", "", "#[repr(%s)]" % r, "pub enum E { %s }" % body)
+        # under every feature set: some sets emit the mis-read value as a literal and fail for that reason alone
+        for fs in FEATURE_SETS:
+            add("beyond_i64", "", "#[repr(%s)]" % r, "pub enum E { %s }" % body, feats=fs)
     # 6. repr
     reprs6 = [
         ("missing", ""), ("dup_same", "#[repr(u8)]\n#[repr(u8)]"), ("dup_diff_align", "#[repr(u8)]\n#[repr(align(2))]"),
@@ -237,7 +239,10 @@ def c13_items(tier: str, seed: int):
     for inner in ["as_str(mode = \"table\", mode = \"match\")", "as_str(name = \"a\", name = \"b\")",
                   "sorted(name, name)", "iter(vis = \"pub\", vis = \"pub\")", "from_str(mode = \"table\", mode = \"table\")",
                   "into(name = \"a\", vis = \"pub\", name = \"a\")", "sorted(value, name, value)",
-                  "names(struct_name = \"X\", struct_name = \"Y\")"]:
+                  "names(struct_name = \"X\", struct_name = \"Y\")",
+                  # the same parameter once bare and once with a value, in either order
+                  "iter(mode = \"table\", mode)", "as_str(name, name = \"label\")", "MIN(vis = \"pub\", vis)",
+                  "as_str(mode, mode = \"match\")", "names(struct_name = \"X\", struct_name)", "sorted(name, name = \"x\")"]:
         one("dup_param", inner)
     # undocumented modes and visibilities
     for f in ["as_str", "from_str", "FromStr"]:
@@ -256,7 +261,10 @@ def c13_items(tier: str, seed: int):
                   "as_str(mode = 'm')", "as_str(name = true)", "iter(struct_name = 5)", "iter(mode = 2.0)",
                   "into(name = \"1abc\")", "into(name = \"a b\")", "into(name = \"\")", "iter(struct_name = \"a-b\")",
                   "as_str(mode = \"table\" \"x\")", "as_str<u8>", "as_str(name = -1)", "Debug = true",
-                  "into(vis = true)", "next(name = 'n')"]:
+                  "into(vis = true)", "next(name = 'n')",
+                  # unquoted words as values
+                  "sorted(name = yes)", "sorted(value = on, name)", "sorted(name = no)", "as_str(mode = table)",
+                  "iter(mode = auto)", "into(vis = pub)", "MIN(name = FIRST)", "sorted(value = value)"]:
         one("wrong_kind", inner)
     add("wrong_kind_path_attr", ["#[enum_tools]"])
     add("wrong_kind_namevalue_attr", ["#[enum_tools = \"x\"]"])
